@@ -9,6 +9,7 @@ open RawPanelVerif.C07
 #print axioms stripSvg_structure
 #print axioms framing
 #print axioms framing_of_singleLine
+#print axioms wire_faithful
 #print axioms svgPinned_loses_content_counterexample
 #print axioms contentEq_invalid_utf8_counterexample
 #print axioms contentEq_trimmed_start_counterexample
